@@ -99,6 +99,19 @@ CHECKS = [
         'note': 'the operator table is my transcription of the grammar at the pinned commit and the documented examples; '
                 'expressions without a value (x/0, negative shifts) are C14 material',
     },
+    {
+        'property_id': 'C14', 'level': 'exploration', 'design_ref': 'DESIGN.md 4 C14',
+        'technique': 'runtime monitoring: grammar-derived fault classes + token/byte mutation, exception-classification oracle at the assemble() boundary, output-path post-condition',
+        'text': 'One generator per error class named in the property (lexing, syntax, unknown/duplicate macro and label, arity, '
+                'alignment, overlap, out-of-range words, division by zero / negative shift / negative exponent at each of the '
+                'three evaluation stages, recursion, deep expressions, bad pad/rep/segment/reserve operands, invalid UTF-8, '
+                'missing/repeated files) plus token-, byte- and line-level mutations of generated valid programs and stl '
+                'programs, at all widths and versions: assemble() must succeed or raise a FlipJumpException that is not the '
+                'generic "unknown exception" wrapper, whose message names the construct where the generator knows it, within the '
+                'watchdog, leaving no loadable output file.',
+        'note': 'never-hangs is bounded progress (30 s / 120 s with stl); astronomically large constants and unbounded rep counts '
+                'are unbounded-work programs, confined to a reported-only class',
+    },
 ]
 
 _TODO = 'check not built yet in this session (work in progress; see DESIGN.md for the planned monitor)'
